@@ -10,7 +10,7 @@ from props import C11
 
 RULE = ("correspondence: CircularDnaOptimizationProblem.resolve_constraints() on circular sequences of 8-36 nt with 1-3 "
         "constraints (whole-sequence patterns on strand 0 / +1 / -1, located patterns, GC windows, frozen regions, "
-        "coding regions), sites planted across the origin at every split, all solver settings; every three-copy view "
+        "coding regions), sites planted across the origin at every split, specification objects already used on a shorter problem, all solver settings; every three-copy view "
         "built during the run is recorded (its specification objects, those overlapping the central copy, its "
         "nucleotide restrictions) and the run is replayed by the Lean model (majority _replace_sequence, central-copy "
         "loop, circular final check); non-trivial = at least 3 assignments; oracle on the real object: returns only "
@@ -66,8 +66,13 @@ def rand_case(rng):
             t[:k - j] = inst[j:]
             seq = "".join(t)
             planted = True
-    return dict(sequence=seq, constraints=cons, objectives=[], settings=problems.rand_settings(rng),
+    desc = dict(sequence=seq, constraints=cons, objectives=[], settings=problems.rand_settings(rng),
                 np_seed=rng.randint(0, 10 ** 6), planted=planted)
+    ends = [c["location"][1] for c in cons if c.get("location")] + [max(c["indices"]) + 1 for c in cons if c.get("indices")]
+    m_lo = max([6] + ends + [c.get("window", 0) for c in cons])
+    if rng.random() < 0.3 and m_lo < n and all(c["kind"] != "cds" or c["location"][1] <= m_lo for c in cons):
+        desc["reuse_after"] = seq[:rng.randint(m_lo, n - 1)]
+    return desc
 
 
 def gen_cases(rng, n):
